@@ -8,6 +8,9 @@
 import GormModel.Model.WriteSet
 import GormModel.Lemmas.WriteSet
 import GormModel.Gen.WriteGuards
+import GormModel.Gen.ValueOfFacts
+import GormModel.Model.FieldZero
+import GormModel.Lemmas.FieldZero
 namespace Gorm
 open Gorm.WriteSet
 
@@ -750,5 +753,173 @@ example : permOfTags [("<-".toList, "create".toList)] = ⟨true, false, true, fa
 
 example : matchName "`t`.`name`".toList = ("t".toList, "name".toList) ∧ matchName "t.*".toList = ("t".toList, star) ∧
     matchName "name desc".toList = ([], []) := by decide
+
+
+/-! ### Round 5 — FIELD KINDS: what "non-zero field" means for every kind of field (`Model/FieldZero.lean`)
+
+`field.ValueOf` decides zero-ness: index path (plain / value-embedded / POINTER-embedded) + `reflect.IsZero` of the Go
+kind + the serializer wrapper.  Tied to the real `field.ValueOf` by the `zero` suite and to the real statements by
+`stmt-kinds` (harness/c10_kinds.go). -/
+section Kinds
+open Gorm.FieldZero
+
+/-- the per-kind zero test: nil pointers / slices / maps / interfaces are zero; a pointer is non-zero WHATEVER it points
+    to (pointer to 0, to ""), a non-nil slice or map is non-zero even when EMPTY; scalars compare with their zero. -/
+theorem C10_kind_zero_table :
+    (∀ v, (GoVal.ptr v).isZero = false) ∧ (∀ n, (GoVal.slice n).isZero = false) ∧ (∀ n, (GoVal.map n).isZero = false) ∧
+    GoVal.nilPtr.isZero = true ∧ GoVal.nilSlice.isZero = true ∧ GoVal.nilMap.isZero = true ∧ GoVal.nilIface.isZero = true ∧
+    (∀ s, (GoVal.str s).isZero = s.isEmpty) ∧ (∀ i, (GoVal.int i).isZero = (i == 0)) ∧
+    (∀ n, (GoVal.uint n).isZero = (n == 0)) ∧ (∀ b, (GoVal.bool b).isZero = !b) := by
+  simp [GoVal.isZero]
+
+/-- struct kinds (time.Time, sql.Null*, Valuer structs) and array kinds are zero iff EVERY component is zero -/
+theorem C10_kind_struct_zero (fs : List GoVal) :
+    (GoVal.struct fs).isZero = fs.all GoVal.isZero ∧ (GoVal.array fs).isZero = fs.all GoVal.isZero :=
+  ⟨struct_isZero fs, array_isZero fs⟩
+
+/-- one non-zero component makes the value non-zero: `sql.NullString{String: "x", Valid: false}`, `[2]int{0, 1}`,
+    `sql.NullInt64{Int64: 0, Valid: true}` are all written by a struct update -/
+theorem C10_kind_struct_nonzero (fs : List GoVal) (x : GoVal) (hx : x ∈ fs) (h : x.isZero = false) :
+    (GoVal.struct fs).isZero = false ∧ (GoVal.array fs).isZero = false := by
+  have : fs.all GoVal.isZero = false := by
+    cases hall : fs.all GoVal.isZero with
+    | false => rfl
+    | true => rw [List.all_eq_true.1 hall x hx] at h; cases h
+  exact ⟨by rw [struct_isZero, this], by rw [array_isZero, this]⟩
+
+/-- SERIALIZER-backed fields (json / gob / unixtime / custom): the wrapper hands on the zero flag of the Go value — the
+    flag does not depend on whether the field has a serializer -/
+theorem C10_serializer_zero_passthrough (a : Access) (r : GoVal) :
+    valueOfZero a r = rawZero a.path r ∧
+    valueOfZero { a with serializer := true } r = valueOfZero { a with serializer := false } r := by
+  constructor
+  · unfold valueOfZero serializerWrap; split <;> rfl
+  · simp [valueOfZero, serializerWrap]
+
+/-- POINTER-embedded struct: when the pointer is nil every field reached through it is zero, whatever follows in the
+    index path (and whatever serializer the field has) -/
+theorem C10_nil_embed_zero (a : Access) (pre rest : List Step) (i : Nat) (r v : GoVal)
+    (hp : a.path = pre ++ Step.ptrField i :: rest) (hw : walk pre (indirect r) = some v) (hn : fieldAt v i = GoVal.nilPtr) :
+    valueOfZero a r = true := by
+  rw [(C10_serializer_zero_passthrough a r).1]
+  unfold rawZero
+  rw [hp, walk_append, hw]
+  simp [walk, hn]
+
+/-- plain field of a plain record: the flag is `reflect.IsZero` of that field -/
+theorem C10_plain_field_zero (a : Access) (i : Nat) (fs : List GoVal) (hp : a.path = [Step.field i]) :
+    valueOfZero a (GoVal.ptr (GoVal.struct fs)) = (fs.getD i (GoVal.struct [])).isZero ∧
+    valueOfZero a (GoVal.struct fs) = (fs.getD i (GoVal.struct [])).isZero := by
+  rw [(C10_serializer_zero_passthrough a _).1, (C10_serializer_zero_passthrough a _).1]
+  simp [rawZero, hp, walk, indirect, fieldAt]
+
+/-- "Updates with a struct writes its non-zero fields", on a concrete RECORD, for every kind of field: the SET list is
+    the one equation of `C10_struct_spec` with `nz` = the fields whose `ValueOf` flag is not zero. -/
+theorem C10_struct_record_spec (s : Schema) (hk : KeysDistinct s) (sel om : List Col) (dim sh : Bool)
+    (accs : List Access) (r : GoVal) (mnz : List Col) :
+    (structSetOfRecord s s sel om dim sh accs r mnz).1 =
+      ((s.fields.filter fun f => f.dbName != []).filter (structRule s sel om dim sh (nzOf accs r))).map (·.dbName) :=
+  C10_struct_spec s hk sel om dim sh (nzOf accs r) mnz
+
+/-- … and the rule per field, spelled with the zero flag of `ValueOf`: a field is in SET iff it is updatable, not the
+    key serving as condition, not omitted, and (selected ∨ tracked update-time of a hook-running update ∨ — without a
+    restricting Select — NOT ZERO as `field.ValueOf` reports it). -/
+theorem C10_struct_record_rule (s : Schema) (sel om : List Col) (dim sh : Bool) (accs : List Access) (r : GoVal)
+    (hd : NamesDistinct accs) (f : FieldSpec) (a : Access) (ha : a ∈ accs) (hn : a.name = f.name) :
+    structRule s sel om dim sh (nzOf accs r) f =
+      (f.updatable && !(f.primaryKey && dim) && !decide (f.dbName ∈ keysOf s om) &&
+        (decide (f.dbName ∈ keysOf s sel) || (!sh && f.autoUpdateTime) ||
+          (!restrictedSpec sel om && !valueOfZero a r))) := by
+  unfold structRule
+  rw [← hn, nzOf_contains hd ha r]
+
+/-- without Select/Omit: written ⇔ updatable ∧ ¬ key-as-condition ∧ (tracked ∨ ¬ zero) — for EVERY kind of value -/
+theorem C10_struct_record_nonzero (s : Schema) (dim sh : Bool) (accs : List Access) (r : GoVal)
+    (hd : NamesDistinct accs) (f : FieldSpec) (a : Access) (ha : a ∈ accs) (hn : a.name = f.name) :
+    structRule s [] [] dim sh (nzOf accs r) f =
+      (f.updatable && !(f.primaryKey && dim) && ((!sh && f.autoUpdateTime) || !valueOfZero a r)) := by
+  rw [C10_struct_nonzero, ← hn, nzOf_contains hd ha r]
+
+/-- the sentence the serializer seeds break: a field whose Go value is ZERO, that is not selected and not a tracked
+    update-time field, is NOT in the SET list of a struct update — its stored cell stays as it was. -/
+theorem C10_struct_zero_untouched (s : Schema) (hk : KeysDistinct s) (sel om : List Col) (dim sh : Bool)
+    (accs : List Access) (r : GoVal) (mnz : List Col) (hd : NamesDistinct accs)
+    (f : FieldSpec) (hf : f ∈ s.fields) (hne : f.dbName ≠ []) (a : Access) (ha : a ∈ accs) (hn : a.name = f.name)
+    (hz : valueOfZero a r = true) (hs : f.dbName ∉ keysOf s sel) (ht : (!sh && f.autoUpdateTime) = false) :
+    f.dbName ∉ (structSetOfRecord s s sel om dim sh accs r mnz).1 := by
+  rw [C10_struct_record_spec s hk]
+  intro hmem
+  obtain ⟨g, hg, hgeq⟩ := List.mem_map.1 hmem
+  obtain ⟨hg1, hrule⟩ := List.mem_filter.1 hg
+  obtain ⟨hgf, hgne⟩ := List.mem_filter.1 hg1
+  have hgne' : g.dbName ≠ [] := by simpa using hgne
+  have hkey : g.key = f.key := by rw [key_of_hasCol hgne', key_of_hasCol hne, hgeq]
+  have : g = f := hk g hgf f hf hkey
+  subst this
+  rw [C10_struct_record_rule s sel om dim sh accs r hd g a ha hn, hz] at hrule
+  simp [hs, ht] at hrule
+
+/-- conversely a NON-zero field of an unrestricted struct update IS written when permitted: pointer to zero, empty
+    non-nil slice, `Valid`-only Null struct … (any `r` with `valueOfZero a r = false`) -/
+theorem C10_struct_nonzero_written (s : Schema) (hk : KeysDistinct s) (dim sh : Bool)
+    (accs : List Access) (r : GoVal) (mnz : List Col) (hd : NamesDistinct accs)
+    (f : FieldSpec) (hf : f ∈ s.fields) (hne : f.dbName ≠ []) (a : Access) (ha : a ∈ accs) (hn : a.name = f.name)
+    (hz : valueOfZero a r = false) (hu : f.updatable = true) (hpk : (f.primaryKey && dim) = false) :
+    f.dbName ∈ (structSetOfRecord s s [] [] dim sh accs r mnz).1 := by
+  rw [C10_struct_record_spec s hk]
+  refine List.mem_map.2 ⟨f, List.mem_filter.2 ⟨List.mem_filter.2 ⟨hf, by simpa using hne⟩, ?_⟩, rfl⟩
+  rw [C10_struct_record_nonzero s dim sh accs r hd f a ha hn, hz, hu, hpk]
+  simp
+
+/-- non-vacuity: a record {ID:1, Name:"", Tags: nil ([]string, serializer:json), Ptr: &0, Meta: nil → Meta.Note}; the
+    struct update writes exactly `ptr` (pointer to zero is non-zero); the zero serializer field and the field below the
+    nil embedded pointer stay untouched -/
+example :
+    let fld (n db : String) (pk : Bool) : FieldSpec :=
+      { name := n.toList, dbName := db.toList, primaryKey := pk, creatable := true, updatable := true, readable := true,
+        autoCreateTime := false, autoUpdateTime := false, hasDefault := false, defaultIface := false, defaultNull := false }
+    let s : Schema := { table := "t".toList, fields := [fld "ID" "id" true, fld "Name" "name" false, fld "Tags" "tags" false,
+        fld "Ptr" "ptr" false, fld "Note" "m_note" false], rels := [], defaultDB := [] }
+    let accs : List Access := [⟨"ID".toList, [.field 0], false⟩, ⟨"Name".toList, [.field 1], false⟩,
+        ⟨"Tags".toList, [.field 2], true⟩, ⟨"Ptr".toList, [.field 3], false⟩, ⟨"Note".toList, [.ptrField 4, .field 0], false⟩]
+    let r : GoVal := .struct [.uint 0, .str [], .nilSlice, .ptr (.int 0), .nilPtr]
+    (structSetOfRecord s s [] [] false false accs r ["ID".toList]).1 = ["ptr".toList] := by
+  decide
+
+/-- regenerated shape of schema/field.go `setupValuerAndSetter`: exactly three `field.ValueOf` closures (single index /
+    general index path / serializer wrapper); the zero flag each returns is `IsZero()` of the reached value, `true` for a
+    nil embedded pointer, and — in the serializer wrapper — the flag `zero` bound by `value, zero := oldValuerOf(ctx, v)`,
+    i.e. handed on unchanged (`serializerWrap`). -/
+theorem C10_gen_valueof_shape :
+    Gen.ValueOfFacts.valueOfGuards = [("0", "len(field.StructField.Index) == 1 && fieldIndex > 0"), ("1", "default"),
+      ("2", "field.Serializer != nil")] ∧
+    Gen.ValueOfFacts.valueOfReturns = [("0", "fieldValue.Interface(), fieldValue.IsZero()"), ("1", "nil, true"), ("1", "fv, zero"),
+      ("2", "&serializer{ Field: field, SerializeValuer: s, Destination: v, Context: ctx, fieldValue: value, }, zero")] ∧
+    Gen.ValueOfFacts.valueOfZeroDefs = [("1", "fv, zero := v.Interface(), v.IsZero()"), ("2", "value, zero := oldValuerOf(ctx, v)")] := by
+  decide
+
+/-- regenerated shape of the consumers of the zero flag in callbacks/update.go `ConvertToAssignments`: the struct branch
+    reads it from `field.ValueOf(stmt.Context, updatingValue)`, overrides it with `false` exactly under
+    `!stmt.SkipHooks && field.AutoUpdateTime > 0` (every unit of tracked update-time), and admits the assignment by
+    `(ok || !isZero) && field.Updatable` (`structWrites`); the other reads are the key-condition blocks (`!isZero`). -/
+theorem C10_gen_iszero_consumers :
+    (Gen.ValueOfFacts.isZeroWrites.filter fun t => t.1 == "ConvertToAssignments") =
+      [("ConvertToAssignments", "size > 0", "_, isZero = field.ValueOf(stmt.Context, stmt.ReflectValue.Index(i))"),
+       ("ConvertToAssignments", "!isZero", "value, isZero := field.ValueOf(stmt.Context, stmt.ReflectValue)"),
+       ("ConvertToAssignments", "(ok && v) || (!ok && (!restricted || (!stmt.SkipHooks && field.AutoUpdateTime > 0)))",
+         "value, isZero := field.ValueOf(stmt.Context, updatingValue)"),
+       ("ConvertToAssignments", "!stmt.SkipHooks && field.AutoUpdateTime > 0", "isZero = false"),
+       ("ConvertToAssignments", "!isZero", "value, isZero := field.ValueOf(stmt.Context, updatingValue)")] ∧
+    (Gen.ValueOfFacts.isZeroTests.filter fun t => t.1 == "ConvertToAssignments").map (·.2) =
+      ["!isZero", "!isZero", "!isZero", "(ok || !isZero) && field.Updatable", "!isZero"] ∧
+    (Gen.ValueOfFacts.isZeroTests.filter fun t => t.1 == "ConvertToCreateValues").map (·.2) =
+      ["isZero", "!isZero", "isZero", "!isZero"] ∧
+    (∀ t ∈ Gen.ValueOfFacts.isZeroWrites, t.1 = "ConvertToCreateValues" →
+      t.2.2 ∈ ["values.Values[i][idx], isZero = field.ValueOf(stmt.Context, rv)", "rvOfvalue, isZero := field.ValueOf(stmt.Context, rv)",
+        "values.Values[0][idx], isZero = field.ValueOf(stmt.Context, stmt.ReflectValue)",
+        "rvOfvalue, isZero := field.ValueOf(stmt.Context, stmt.ReflectValue)"]) := by
+  decide
+
+end Kinds
 
 end Gorm
